@@ -18,6 +18,10 @@ import (
 func (c *Core) SendBundle(bndl *bpv7.Bundle) {
 	// Assign the sequence number first, so that the bundle is signed, stored and transmitted under the same ID.
 	c.idKeeper.update(bndl)
+	for c.store.KnowsBundle(bndl.ID()) {
+		// The IdKeeper does not survive a restart, the store does: never reuse the ID of a stored bundle.
+		c.idKeeper.update(bndl)
+	}
 
 	if c.signPriv != nil && bndl.IsAdministrativeRecord() {
 		c.sendBundleAttachSignature(bndl)
